@@ -54,6 +54,9 @@ var c11PropNames = []string{"name", "kind", "owner-id", "age", "a.b", "type", "d
 var c11Kinds = []struct{ kind, oaType, oaFormat, sysl string }{
 	{"string", "string", "", "STRING"}, {"int", "integer", "", "INT"}, {"int32", "integer", "int32", "INT"}, {"int64", "integer", "int64", "INT"},
 	{"float", "number", "", "FLOAT"}, {"bool", "boolean", "", "BOOL"}, {"date", "string", "date", "DATE"}, {"datetime", "string", "date-time", "DATETIME"},
+	// formats outside the importers' tables: the kind is that of the bare type
+	{"int16", "integer", "int16", "INT"}, {"uint8", "integer", "uint8", "INT"}, {"decimalnum", "number", "decimal", "FLOAT"},
+	{"double", "number", "double", "FLOAT"}, {"email", "string", "email", "STRING"},
 }
 
 func c11Kind(k string) (oaType, oaFormat, syslPrim string) {
@@ -388,11 +391,15 @@ func genFDoc(r *Rand, format string) *fDoc {
 					p.Attr = true
 				}
 			}
-			if i > 0 && r.Chance(1, 3) {
+			if i > 0 && r.Chance(1, 2) {
+				// an extension of the first type or of the previous one (chains: C extends B extends A)
 				d.Schemas[i].Base = d.Schemas[0].Name
-				// an extension adds elements; it does not re-declare those of its base
+				if r.Bool() {
+					d.Schemas[i].Base = d.Schemas[i-1].Name
+				}
+				// an extension adds elements; it does not re-declare those of its bases
 				for j := range d.Schemas[i].Props {
-					d.Schemas[i].Props[j].Name = "d_" + d.Schemas[i].Props[j].Name
+					d.Schemas[i].Props[j].Name = fmt.Sprintf("d%d_", i) + d.Schemas[i].Props[j].Name
 				}
 			}
 		}
@@ -407,7 +414,7 @@ func genFDoc(r *Rand, format string) *fDoc {
 				s.Props = append(s.Props, fProp{Name: "sub", Kind: "string", Key: true, Required: true})
 			}
 			for c := 0; c < r.Intn(5); c++ {
-				s.Props = append(s.Props, fProp{Name: fmt.Sprintf("c%d", c), Kind: c11Kinds[r.Intn(len(c11Kinds))].kind, Required: r.Bool()})
+				s.Props = append(s.Props, fProp{Name: fmt.Sprintf("c%d", c), Kind: c11Kinds[r.Intn(8)].kind, Required: r.Bool()}) // the kinds Spanner DDL has a column type for
 			}
 			d.Schemas = append(d.Schemas, s)
 		}
